@@ -150,7 +150,11 @@ func faultFamily(tier string, off int64, prefix string, nq, nt int) []*spec.Spec
 		o.CtxP = []float64{0, 0.1, 0.25}[r.Intn(3)]
 		return o
 	})
-	specs = append(specs, enumFamily(tier, base.Seed()+off, "e"+prefix, 0.5)...)
+	f := 0.6
+	if prefix == "h" {
+		f = 0.35 // C08 runs every scenario with the (slow) leak monitor
+	}
+	specs = append(specs, enumFamilySized(tier, base.Seed()+off, "e"+prefix, 0.5, f)...)
 	return specs
 }
 
